@@ -214,6 +214,77 @@ Proof.
   induction l as [|x r IH]; cbn [sort_by fold_right]; [constructor|]. apply insert_by_sorted. exact IH.
 Qed.
 
+Lemma insert_idx_perm x l : Permutation (insert_idx x l) (x :: l).
+Proof.
+  induction l as [|y r IH]; cbn [insert_idx]; [apply Permutation_refl|].
+  destruct (Nat.leb x y); [apply Permutation_refl|].
+  apply (Permutation_trans (l' := y :: x :: r)); [apply perm_skip; exact IH|apply perm_swap].
+Qed.
+
+Lemma sort_idx_perm l : Permutation (sort_idx l) l.
+Proof.
+  induction l as [|x r IH]; cbn [sort_idx fold_right]; [apply Permutation_refl|].
+  apply (Permutation_trans (insert_idx_perm x _)). apply perm_skip. exact IH.
+Qed.
+
+Lemma cap_order_perm key l : Permutation (cap_order key l) l.
+Proof. unfold cap_order. apply (Permutation_trans (sort_by_perm key _)). apply sort_idx_perm. Qed.
+
+Lemma In_cap_order key l x : In x (cap_order key l) <-> In x l.
+Proof.
+  split; intros H.
+  - apply (Permutation_in _ (cap_order_perm key l)); exact H.
+  - apply (Permutation_in _ (Permutation_sym (cap_order_perm key l))); exact H.
+Qed.
+
+Lemma cap_order_sorted key l : StronglySorted (key_le key) (cap_order key l).
+Proof. unfold cap_order. apply sort_by_sorted. Qed.
+
+(* ---- the cap order is lexicographic: by distance, equal distances by atom index ---- *)
+Definition lex_le (key : nat -> Qc) (x y : nat) : Prop := key x < key y \/ (key x = key y /\ (x <= y)%nat).
+
+Lemma insert_idx_sorted x l : StronglySorted le l -> StronglySorted le (insert_idx x l).
+Proof.
+  induction l as [|y r IH]; intros Hs; cbn [insert_idx]; [constructor; constructor|].
+  inversion Hs as [|? ? Hr Hy]; subst. destruct (Nat.leb_spec x y) as [E|E].
+  - constructor; [exact Hs|]. constructor; [exact E|]. eapply Forall_impl; [|exact Hy]. intros z Hz. lia.
+  - constructor; [apply IH; exact Hr|].
+    apply (Permutation_Forall (Permutation_sym (insert_idx_perm x r))). constructor; [lia|exact Hy].
+Qed.
+
+Lemma sort_idx_sorted l : StronglySorted le (sort_idx l).
+Proof. induction l as [|x r IH]; cbn [sort_idx fold_right]; [constructor|]. apply insert_idx_sorted, IH. Qed.
+
+Lemma insert_by_lex key x l : Forall (fun y => (x <= y)%nat) l ->
+  StronglySorted (lex_le key) l -> StronglySorted (lex_le key) (insert_by key x l).
+Proof.
+  induction l as [|y r IH]; intros Hx Hs; cbn [insert_by]; [constructor; constructor|].
+  inversion Hs as [|? ? Hr Hy]; subst. inversion Hx as [|? ? Hxy Hxr]; subst.
+  destruct (Qcleb (key x) (key y)) eqn:E.
+  - apply Qcleb_le in E. constructor; [exact Hs|].
+    assert (Lxy : lex_le key x y).
+    { destruct (Qcle_lt_or_eq _ _ E) as [L|L]; [left; exact L|right; split; [exact L|exact Hxy]]. }
+    constructor; [exact Lxy|]. rewrite Forall_forall in *. intros z Hz. specialize (Hy z Hz). specialize (Hxr z Hz).
+    destruct Lxy as [L|[L1 L2]], Hy as [M|[M1 M2]].
+    + left. apply (Qclt_trans _ (key y)); assumption.
+    + left. rewrite <- M1. exact L.
+    + left. rewrite L1. exact M.
+    + right. split; [congruence|exact Hxr].
+  - apply Qcleb_false_lt in E. constructor; [apply IH; assumption|].
+    apply (Permutation_Forall (Permutation_sym (insert_by_perm key x r))).
+    constructor; [left; exact E|exact Hy].
+Qed.
+
+Lemma sort_by_lex key l : StronglySorted le l -> StronglySorted (lex_le key) (sort_by key l).
+Proof.
+  induction l as [|x r IH]; intros Hs; cbn [sort_by fold_right]; [constructor|].
+  inversion Hs as [|? ? Hr Hx]; subst. apply insert_by_lex; [|apply IH; exact Hr].
+  apply (Permutation_Forall (Permutation_sym (sort_by_perm key r))). exact Hx.
+Qed.
+
+Lemma cap_order_lex key l : StronglySorted (lex_le key) (cap_order key l).
+Proof. unfold cap_order. apply sort_by_lex, sort_idx_sorted. Qed.
+
 Lemma sorted_firstn_skipn {A} (R : A -> A -> Prop) l :
   StronglySorted R l -> forall m x y, In x (firstn m l) -> In y (skipn m l) -> R x y.
 Proof.
@@ -481,7 +552,7 @@ Qed.
 
 Lemma prune_node_cases d mv g i :
   (prune_node d mv g i = g /\ (degree g i <= mv i)%nat) \/
-  (prune_node d mv g i = rm_many i (skipn (mv i) (sort_by (d i) (neighbours g i))) g /\ (mv i < degree g i)%nat).
+  (prune_node d mv g i = rm_many i (skipn (mv i) (cap_order (d i) (neighbours g i))) g /\ (mv i < degree g i)%nat).
 Proof.
   unfold prune_node, degree. destruct (Nat.leb_spec (length (neighbours g i)) (mv i)) as [H|H].
   - left. split; [reflexivity|exact H].
@@ -492,9 +563,9 @@ Lemma degree_prune_node_self d mv g i : (degree (prune_node d mv g i) i <= mv i)
 Proof.
   destruct (prune_node_cases d mv g i) as [[-> H]|[-> H]]; [exact H|].
   unfold degree. rewrite neighbours_rm_many.
-  set (nb := neighbours g i). set (srt := sort_by (d i) nb). set (L := skipn (mv i) srt).
+  set (nb := neighbours g i). set (srt := cap_order (d i) nb). set (L := skipn (mv i) srt).
   set (p := fun k => negb (existsb (Nat.eqb k) L)).
-  rewrite (perm_filter_length p nb srt) by (apply Permutation_sym, sort_by_perm).
+  rewrite (perm_filter_length p nb srt) by (apply Permutation_sym, cap_order_perm).
   rewrite <- (firstn_skipn (mv i) srt). fold L. rewrite filter_app, app_length.
   assert (E : filter p L = []).
   { assert (G : forall M, (forall x, In x M -> In x L) -> filter p M = []).
@@ -555,7 +626,7 @@ Lemma prune_node_removed d mv g i a b :
 Proof.
   intros Hg Hp. destruct (prune_node_cases d mv g i) as [[E H]|[E H]]; [rewrite E in Hp; congruence|].
   split; [exact H|]. rewrite E in *.
-  set (L := skipn (mv i) (sort_by (d i) (neighbours g i))) in *.
+  set (L := skipn (mv i) (cap_order (d i) (neighbours g i))) in *.
   destruct (has_edge_filter_removed _ _ _ _ Hg Hp) as (e & He & Hab & Hrm).
   apply negb_false_iff, existsb_exists in Hrm. destruct Hrm as (j & Hj & Hij).
   assert (Hrest : has_edge g i j = true /\ has_edge (rm_many i L g) i j = false /\
@@ -569,12 +640,35 @@ Proof.
     - intros k Hk. apply has_edge_In in Hk. rewrite neighbours_rm_many in Hk. apply filter_In in Hk.
       destruct Hk as [Hk1 Hk2]. apply negb_true_iff in Hk2.
       assert (HkL : ~ In k L) by (intros X; apply existsb_eqb_In in X; congruence).
-      assert (Hks : In k (sort_by (d i) (neighbours g i))) by (apply In_sort_by; exact Hk1).
-      rewrite <- (firstn_skipn (mv i) (sort_by (d i) (neighbours g i))) in Hks.
+      assert (Hks : In k (cap_order (d i) (neighbours g i))) by (apply In_cap_order; exact Hk1).
+      rewrite <- (firstn_skipn (mv i) (cap_order (d i) (neighbours g i))) in Hks.
       apply in_app_or in Hks. destruct Hks as [Hks|Hks]; [|contradiction].
-      exact (sorted_firstn_skipn (key_le (d i)) _ (sort_by_sorted (d i) _) (mv i) k j Hks Hj). }
+      exact (sorted_firstn_skipn (key_le (d i)) _ (cap_order_sorted (d i) _) (mv i) k j Hks Hj). }
   apply eqe_true in Hab, Hij. exists j. split; [|exact Hrest].
   destruct Hab as [[A1 A2]|[A1 A2]], Hij as [[B1 B2]|[B1 B2]]; [left|right|right|left]; split; congruence.
+Qed.
+
+(* equally long bonds at an over-coordinated atom are removed in atom-index order (/repo 3e32450): a kept
+   neighbour at the same distance as a removed one has the smaller index *)
+Lemma prune_node_ties_by_index d mv g i j k :
+  has_edge g i j = true -> has_edge (prune_node d mv g i) i j = false ->
+  has_edge (prune_node d mv g i) i k = true -> d i k = d i j -> (k < j)%nat.
+Proof.
+  intros Hg Hp Hk Heq. destruct (prune_node_cases d mv g i) as [[E H]|[E H]]; [rewrite E in Hp; congruence|].
+  rewrite E in *. set (L := skipn (mv i) (cap_order (d i) (neighbours g i))) in *.
+  assert (Hj : In j L).
+  { apply has_edge_In in Hg. destruct (existsb (Nat.eqb j) L) eqn:X; [apply existsb_eqb_In; exact X|]. exfalso.
+    assert (Y : has_edge (rm_many i L g) i j = true).
+    { apply has_edge_In. rewrite neighbours_rm_many. apply filter_In. split; [exact Hg|rewrite X; reflexivity]. }
+    congruence. }
+  apply has_edge_In in Hk. rewrite neighbours_rm_many in Hk. apply filter_In in Hk. destruct Hk as [Hk1 Hk2].
+  apply negb_true_iff in Hk2. assert (HkL : ~ In k L) by (intros X; apply existsb_eqb_In in X; congruence).
+  assert (Hks : In k (cap_order (d i) (neighbours g i))) by (apply In_cap_order; exact Hk1).
+  rewrite <- (firstn_skipn (mv i) (cap_order (d i) (neighbours g i))) in Hks.
+  apply in_app_or in Hks. destruct Hks as [Hks|Hks]; [|contradiction].
+  pose proof (sorted_firstn_skipn (lex_le (d i)) _ (cap_order_lex (d i) _) (mv i) k j Hks Hj) as [Lt|[_ Le]].
+  - rewrite Heq in Lt. exfalso. apply (Qclt_not_eq _ _ Lt). reflexivity.
+  - destruct (Nat.eq_dec k j) as [->|Ne]; [contradiction|lia].
 Qed.
 
 (* every bond of g that the cap removed was removed at one of its two atoms, as above *)
@@ -759,12 +853,112 @@ Proof.
   rewrite !(dot3_orth R) by exact H. rewrite !(norm2_orth R) by exact H. reflexivity.
 Qed.
 
+Lemma Qcltb_irrefl' a : Qcltb a a = false.
+Proof. destruct (Qcltb a a) eqn:E; [|reflexivity]. apply Qcltb_lt in E. exfalso. apply (Qclt_not_eq _ _ E). reflexivity. Qed.
+
+(* a zero vector (the atom itself, or a coincident atom) is never "off" *)
+Lemma lin_off_self_l ct p b : lin_off ct p p b = false.
+Proof.
+  unfold lin_off. cbv zeta.
+  replace (dot3 (vsub3 p p) (vsub3 b p)) with 0 by (v3; ring).
+  replace (norm2 (vsub3 p p)) with 0 by (v3; ring).
+  replace (0 * 0) with 0 by ring. replace (ct * ct * (0 * norm2 (vsub3 b p))) with 0 by ring.
+  rewrite Qcltb_irrefl'. apply andb_false_r.
+Qed.
+
+Lemma lin_off_self_r ct p a : lin_off ct p a p = false.
+Proof.
+  unfold lin_off. cbv zeta.
+  replace (dot3 (vsub3 a p) (vsub3 p p)) with 0 by (v3; ring).
+  replace (norm2 (vsub3 p p)) with 0 by (v3; ring).
+  replace (0 * 0) with 0 by ring. replace (ct * ct * (norm2 (vsub3 a p) * 0)) with 0 by ring.
+  rewrite Qcltb_irrefl'. apply andb_false_r.
+Qed.
+
+Lemma forallb_perm {A} (f : A -> bool) l l' : Permutation l l' -> forallb f l = forallb f l'.
+Proof.
+  intros H. apply bool_iff_eq. rewrite !forallb_forall. split; intros G x Hx; apply G.
+  - apply (Permutation_in _ (Permutation_sym H)); exact Hx.
+  - apply (Permutation_in _ H); exact Hx.
+Qed.
+
+Lemma forallb_ext' {A} (f g : A -> bool) l : (forall x, f x = g x) -> forallb f l = forallb g l.
+Proof. intros H. induction l as [|x l IH]; cbn [forallb]; [reflexivity|]. rewrite H, IH. reflexivity. Qed.
+
+Lemma others_perm {A} (d : A) i l : (i < length l)%nat -> Permutation (nth i l d :: others i l) l.
+Proof.
+  revert i. induction l as [|x l IH]; intros i Hi; cbn [length] in Hi; [lia|].
+  destruct i as [|i]; unfold others; cbn [nth firstn skipn app]; [apply Permutation_refl|].
+  apply (Permutation_trans (l' := x :: nth i l d :: others i l)); [apply perm_swap|].
+  apply perm_skip. apply IH. lia.
+Qed.
+
+Lemma map_nth_seq {A} (d : A) l : map (fun i => nth i l d) (seq 0 (length l)) = l.
+Proof.
+  induction l as [|x l IH]; [reflexivity|]. cbn [length seq map nth]. f_equal.
+  rewrite <- seq_shift, map_map. exact IH.
+Qed.
+
+Lemma forallb_seq_nth {A} (d : A) (h : A -> bool) l :
+  forallb (fun i => h (nth i l d)) (seq 0 (length l)) = forallb h l.
+Proof.
+  transitivity (forallb h (map (fun i => nth i l d) (seq 0 (length l)))).
+  - induction (seq 0 (length l)) as [|i r IH]; cbn [map forallb]; [reflexivity|]. rewrite IH. reflexivity.
+  - rewrite map_nth_seq. reflexivity.
+Qed.
+
+(* the loops over "the other atoms" may as well run over all atoms *)
+Lemma linear_inner_all ct p o ps : Permutation (p :: o) ps ->
+  forallb (fun a => forallb (fun b => negb (lin_off ct p a b)) o) o =
+  forallb (fun a => forallb (fun b => negb (lin_off ct p a b)) ps) ps.
+Proof.
+  intros H. rewrite <- (forallb_perm _ _ _ H).
+  rewrite (forallb_ext' (fun a => forallb (fun b => negb (lin_off ct p a b)) ps)
+                        (fun a => forallb (fun b => negb (lin_off ct p a b)) (p :: o)))
+    by (intros a; symmetry; apply forallb_perm; exact H).
+  cbn [forallb]. rewrite lin_off_self_l. cbn [negb andb].
+  rewrite (forallb_ext' (fun b => negb (lin_off ct p p b)) (fun _ => true))
+    by (intros b; rewrite lin_off_self_l; reflexivity).
+  assert (T : forallb (fun _ : V3 => true) o = true) by (apply forallb_forall; reflexivity).
+  rewrite T. cbn [andb]. apply forallb_ext'. intros a. rewrite lin_off_self_r. reflexivity.
+Qed.
+
+Lemma are_linear_model_eq ct ps :
+  are_linear_model ct ps =
+  if Nat.ltb (length ps) 2 then false else if Nat.eqb (length ps) 2 then true else are_linear_sym ct ps.
+Proof.
+  destruct ps as [|a [|b [|c r]]]; try reflexivity.
+  set (l := a :: b :: c :: r). change (are_linear_model ct l) with
+    (forallb (fun i => let p := nth i l vzero in let o := others i l in
+                forallb (fun x => forallb (fun y => negb (lin_off ct p x y)) o) o) (seq 0 (length l))).
+  replace (Nat.ltb (length l) 2) with false by reflexivity. replace (Nat.eqb (length l) 2) with false by reflexivity.
+  unfold are_linear_sym. rewrite <- (forallb_seq_nth vzero _ l).
+  apply bool_iff_eq. rewrite !forallb_forall. split; intros G i Hi; specialize (G i Hi); cbv zeta in *.
+  - rewrite <- (linear_inner_all ct _ (others i l) l); [exact G|apply others_perm; apply in_seq in Hi; lia].
+  - rewrite (linear_inner_all ct _ (others i l) l); [exact G|apply others_perm; apply in_seq in Hi; lia].
+Qed.
+
+Lemma are_linear_sym_rigid R t ct ps : orth R ->
+  are_linear_sym ct (map (rigid R t) ps) = are_linear_sym ct ps.
+Proof.
+  intros H. unfold are_linear_sym. apply forallb_map_ext. intros p. apply forallb_map_ext. intros a.
+  apply forallb_map_ext. intros b. rewrite lin_off_rigid by exact H. reflexivity.
+Qed.
+
 Lemma are_linear_rigid R t ct ps : orth R ->
   are_linear_model ct (map (rigid R t) ps) = are_linear_model ct ps.
+Proof. intros H. rewrite !are_linear_model_eq, map_length, are_linear_sym_rigid by exact H. reflexivity. Qed.
+
+Lemma are_linear_sym_perm ct ps ps' : Permutation ps ps' -> are_linear_sym ct ps = are_linear_sym ct ps'.
 Proof.
-  intros H. destruct ps as [|a [|b [|c r]]]; try reflexivity.
-  cbn [map are_linear_model forallb]. rewrite lin_off_rigid by exact H. f_equal.
-  apply forallb_map_ext. intros x. rewrite lin_off_rigid by exact H. reflexivity.
+  intros H. unfold are_linear_sym. rewrite (forallb_perm _ _ _ H). apply forallb_ext'. intros p.
+  rewrite (forallb_perm _ _ _ H). apply forallb_ext'. intros a. apply forallb_perm. exact H.
+Qed.
+
+(* linearity does not depend on the order the atoms are listed in *)
+Lemma are_linear_perm ct ps ps' : Permutation ps ps' -> are_linear_model ct ps = are_linear_model ct ps'.
+Proof.
+  intros H. rewrite !are_linear_model_eq, (Permutation_length H), (are_linear_sym_perm ct _ _ H). reflexivity.
 Qed.
 
 Lemma Qcabs_det_mul dt x : dt = 1 \/ dt = - (1) -> Qcabs (dt * x) = Qcabs x.
